@@ -201,6 +201,8 @@ func (w *World) resolveType(pkg *types.Package, s string) (types.Type, error) {
 			return nil, err
 		}
 		return types.NewMap(k, types.Typ[types.Bool]), nil
+	case s == "struct{}":
+		return types.NewStruct(nil, nil), nil
 	case s == "interface{}" || s == "any":
 		return tAny, nil
 	case s == "error":
